@@ -20,12 +20,15 @@ PLAN = {
     "C09": ["C09"], "C10": ["C10", "C06"], "C11": ["C11"], "C12": ["C12"], "C13": ["C13"],
     "C14": ["C14", "C05"], "C15": ["C15"], "C16": ["C16"], "C17": ["C17"], "C18": ["C18"],
     "C19": ["C19"], "C20": ["C20", "C08"],
+    # per seeded change (overrides the per-property default)
+    "C01b": ["C01", "C10", "C03"], "C05b": ["C05", "C14"], "C14b": ["C14", "C05"], "C20b": ["C20", "C12"],
+    "C10b": ["C10"], "C06b": ["C06"], "C08b": ["C08"], "C03b": ["C03", "C04"],
 }
 
 
 def one(mid):
     d = os.path.join(ROOT, "seeded", mid)
-    checks = [c for c in PLAN.get(mid[:3], [mid[:3]]) if os.path.exists(os.path.join(ROOT, "checks", c + ".py"))]
+    checks = [c for c in PLAN.get(mid, PLAN.get(mid[:3], [mid[:3]])) if os.path.exists(os.path.join(ROOT, "checks", c + ".py"))]
     p = subprocess.run([sys.executable, os.path.join(ROOT, "tools", "mutant_eval.py"), d] + checks,
                        stdout=subprocess.PIPE, stderr=subprocess.STDOUT)
     res = {}
